@@ -3115,10 +3115,73 @@ func c01r12(c *Ctx, r *Report) {
 	r.floor("small letters of the table that have a capital", pairs, 150)
 }
 
+// c01r13: "the term itself carries an accent" is asked of the text that is going to be MATCHED. For a
+// case-sensitive term that is the text as typed, and a capital can carry an accent that its lower-case form does
+// not (İ lower-cases to plain i; Ⱥ and Ⱦ to letters outside the table) — so the test on the lower-cased copy
+// alone is not enough (D69: `İst` was taken for unaccented, rewritten to `Ist`, and matched `Istanbul`).
+func c01r13(c *Ctx, r *Report) {
+	l := c.L
+	r.rule("C01-R13", "D (the accent test reads the text that is matched)", "P1",
+		"in parseTerms and in the --no-extended arm of BuildPattern, the value that becomes the normalize flag depends on a call of algo.NormalizeRunes whose argument is derived from the term text WITHOUT passing through strings.ToLower",
+		"a term written with an accented capital is normalised although it carries an accent: lines that only contain the bare letter are shown")
+	nr := l.Fn("algo", "NormalizeRunes")
+	if nr == nil {
+		r.unest("anchors", token.NoPos, nil, "anchor algo.NormalizeRunes", "cannot resolve")
+		return
+	}
+	n := 0
+	for _, name := range []string{"parseTerms", "BuildPattern"} {
+		fn := l.Fn("fzf", name)
+		if fn == nil {
+			r.unest("anchors:"+name, token.NoPos, nil, "anchor "+name, "cannot resolve")
+			continue
+		}
+		// comparisons `x == string(NormalizeRunes([]rune(x)))`: classify by whether x went through ToLower
+		lowered, asTyped := 0, 0
+		eachInstr(fn, func(in ssa.Instruction) {
+			b, ok := in.(*ssa.BinOp)
+			if !ok || b.Op != token.EQL {
+				return
+			}
+			var call *ssa.Call
+			for _, side := range []ssa.Value{b.X, b.Y} {
+				for w := range backwardSlice(side, func(cc *ssa.CallCommon) bool { return cc.StaticCallee() != nr }, nil) {
+					if cl, ok := w.(*ssa.Call); ok && cl.Common().StaticCallee() == nr {
+						call = cl
+					}
+				}
+			}
+			if call == nil {
+				return
+			}
+			viaLower := false
+			for w := range backwardSlice(call.Call.Args[0], func(*ssa.CallCommon) bool { return true }, nil) {
+				if cl, ok := w.(*ssa.Call); ok && calleeName(cl.Common()) == "strings.ToLower" {
+					viaLower = true
+				}
+			}
+			if viaLower {
+				lowered++
+			} else {
+				asTyped++
+			}
+		})
+		if lowered+asTyped == 0 {
+			continue
+		}
+		n++
+		r.check(asTyped > 0, relName(fn)+":the accent test also reads the text as typed", fn.Pos(), fn,
+			fmt.Sprintf("%d comparison(s) with the normalised form of the typed text, %d with that of the lower-cased text", asTyped, lowered),
+			"the term is compared with its normalised form only after lower-casing: an accent that the capital carries and its lower-case form does not is missed")
+	}
+	r.floor("functions that decide whether a term carries an accent", n, 2)
+}
+
 // round8 runs the round-8 rules of a property (own and shared) after the property's older rules.
 func round8(c *Ctx, r *Report, prop string) {
 	switch prop {
 	case "C01":
+		c01r13(c, r)
 		c01r12(c, r)
 		c01r10(c, r)
 		c01r11(c, r)
